@@ -20,9 +20,11 @@ import (
 	"sync"
 	"sync/atomic"
 	"testing"
+	"time"
 
 	"github.com/ethereum/go-ethereum/common"
 	"github.com/ethereum/go-ethereum/core/rawdb"
+	"github.com/ethereum/go-ethereum/ethdb"
 	"github.com/ethereum/go-ethereum/triedb/database"
 	"pgregory.net/rapid"
 	"verif.local/kit/reftrie"
@@ -835,6 +837,283 @@ func TestVerifC16Conc(t *testing.T) {
 		}
 		c.Sample(nt, func() any {
 			return map[string]any{"steps": n, "readers": readers, "gomaxprocs": procs, "ok_reads": okReads.Load(), "error_reads": errReads.Load()}
+		})
+	})
+}
+
+// ---------------------------------------------------------------------------
+// Owned schedule: a disk read of the reader is stalled while a layer is flattened.
+// ---------------------------------------------------------------------------
+
+// c16StallDB wraps the key-value store handed to pathdb. A Get on the armed key
+// fetches the value, signals `reached` and then waits (bounded) for `release`: it
+// models a slow disk read at a point chosen by the harness. No source hook.
+type c16StallDB struct {
+	ethdb.Database
+	mu      sync.Mutex
+	armed   []byte
+	reached chan struct{}
+	release chan struct{}
+}
+
+func (d *c16StallDB) arm(key []byte) (reached, release chan struct{}) {
+	d.mu.Lock()
+	defer d.mu.Unlock()
+	d.armed, d.reached, d.release = common.CopyBytes(key), make(chan struct{}), make(chan struct{})
+	return d.reached, d.release
+}
+
+func (d *c16StallDB) Get(key []byte) ([]byte, error) {
+	val, err := d.Database.Get(key)
+	d.mu.Lock()
+	var reached, release chan struct{}
+	if d.armed != nil && bytes.Equal(d.armed, key) {
+		reached, release, d.armed = d.reached, d.release, nil
+	}
+	d.mu.Unlock()
+	if reached != nil {
+		close(reached)
+		select {
+		case <-release:
+		case <-time.After(2 * time.Second): // bounded: never a deadlock, whatever the tree does
+		}
+	}
+	return val, err
+}
+
+// TestVerifC16Stall owns the interleaving "reader fetched the old value from disk ->
+// a diff layer changing that key is flattened and flushed -> reader continues".
+// The reader reads at the disk layer root a key that is in no buffer and not in the
+// clean caches (fresh key, or any key after a reopen). While its Get is stalled the
+// harness checks white-box whether the reader still holds the disk layer's lock:
+// if so the flattening cannot overtake it and the reader is released at once; if the
+// lock is free, the update/cap/flush runs to completion first. Afterwards the
+// reader's result must be the model value of its root or an error, and every key at
+// every live root must read as in the model.
+func TestVerifC16Stall(t *testing.T) {
+	st := vs.New("C16", t)
+	defer func(old int) { maxDiffLayers = old }(maxDiffLayers)
+	vs.Check(t, 0.15, func(rt *rapid.T) {
+		c := st.Case()
+		maxDiffLayers = rapid.SampledFrom([]int{1, 2, 3}).Draw(rt, "maxDiffLayers")
+		cfg := &Config{
+			WriteBufferSize: rapid.SampledFrom([]int{0, 0, 512}).Draw(rt, "writeBuffer"),
+			NoAsyncFlush:    rapid.Bool().Draw(rt, "noAsyncFlush"), NoAsyncGeneration: true,
+			TrieCleanSize: 64 * 1024, StateCleanSize: 64 * 1024, TrienodeHistory: -1,
+		}
+		stall := &c16StallDB{Database: rawdb.NewMemoryDatabase()}
+		db := New(stall, cfg, false)
+		defer func() {
+			db.Close()
+			stall.Database.Close()
+		}()
+		w := newPdbWorld()
+		var trace []string
+		fail := func(format string, a ...any) {
+			rt.Fatalf("%s\nmaxDiffLayers=%d buffer=%d noAsyncFlush=%v\nhistory:\n  %s", fmt.Sprintf(format, a...), maxDiffLayers, cfg.WriteBufferSize, cfg.NoAsyncFlush, strings.Join(trace, "\n  "))
+		}
+		push := func(parent common.Hash, ops []pdbOp) common.Hash {
+			tr := w.Transition(parent, ops, w.NextSeq(), rapid.Bool().Draw(rt, "rawKeys"))
+			if err := db.Update(tr.Root, tr.Parent, uint64(len(trace)), tr.Nodes, tr.States); err != nil {
+				fail("Update(%x<-%x): %v", tr.Root, tr.Parent, err)
+			}
+			trace = append(trace, fmt.Sprintf("update %x<-%x %v", tr.Root[:4], tr.Parent[:4], ops))
+			return tr.Root
+		}
+		// preparation: a history over accounts 0..5 (6 and 7 stay untouched = fresh keys), committed to disk
+		head := w.Roots()[0]
+		for i, n := 0, rapid.IntRange(2, 10).Draw(rt, "prep"); i < n; i++ {
+			var ops []pdbOp
+			for _, o := range pdbDrawOps(rt, w.State(head), rapid.IntRange(2, 5).Draw(rt, "nops")) {
+				if o.A%pdbNumAddrs < 6 {
+					ops = append(ops, o)
+				}
+			}
+			head = push(head, ops)
+		}
+		if err := db.Commit(head, false); err != nil {
+			fail("Commit(%x): %v", head, err)
+		}
+		trace = append(trace, fmt.Sprintf("commit %x", head[:4]))
+		reopen := rapid.Bool().Draw(rt, "reopen")
+		if reopen {
+			// a fresh Database over the same store: empty buffers and clean caches, state on disk
+			if err := db.Close(); err != nil {
+				fail("Close: %v", err)
+			}
+			db = New(stall, cfg, false)
+			trace = append(trace, "reopen")
+			if got := db.tree.bottom().rootHash(); got != head {
+				fail("reopened database has disk root %x, expected %x", got, head)
+			}
+		}
+		diskRoot, dst := head, w.State(head)
+
+		// the key, the transition that changes it and the disk key to stall on
+		kind := rapid.SampledFrom([]string{"account", "slot", "node"}).Draw(rt, "kind")
+		var existing []int
+		for i := 0; i < 6; i++ {
+			if dst.Accts[pdbAddrs[i].Hash] != nil {
+				existing = append(existing, i)
+			}
+		}
+		var (
+			ai      = 6 + rapid.IntRange(0, 1).Draw(rt, "freshAccount")
+			si      = rapid.IntRange(0, pdbNumSlots-1).Draw(rt, "slot")
+			val     = rapid.IntRange(0, len(pdbValues)-1).Draw(rt, "val")
+			ops     []pdbOp
+			diskKey []byte
+			read    func(sr database.StateReader, nr database.NodeReader) ([]byte, error)
+			want    []byte
+		)
+		useExisting := reopen && len(existing) > 0 && (kind == "node" || rapid.Bool().Draw(rt, "existingKey"))
+		if useExisting {
+			ai = existing[rapid.IntRange(0, len(existing)-1).Draw(rt, "existingAccount")]
+		} else if kind == "node" {
+			kind = "account" // a fresh account has no node on disk whose stale copy could be cached
+		}
+		a := pdbAddrs[ai].Hash
+		s := pdbSlots[si].Hash
+		switch kind {
+		case "account":
+			ops = []pdbOp{{pdbOpCreate, ai, 0, val}, {pdbOpModify, ai, 0, val}}
+			diskKey = append(common.CopyBytes(rawdb.SnapshotAccountPrefix), a[:]...)
+			want = dst.AccountBlob(a)
+			read = func(sr database.StateReader, _ database.NodeReader) ([]byte, error) { return sr.(*reader).AccountRLP(a) }
+		case "slot":
+			ops = []pdbOp{{pdbOpCreate, ai, 0, val}, {pdbOpSetSlot, ai, si, val}}
+			if bytes.Equal(dst.SlotBlob(a, s), pdbSlotValue(val)) {
+				ops[1] = pdbOp{pdbOpDelSlot, ai, si, 0}
+			}
+			diskKey = append(append(common.CopyBytes(rawdb.SnapshotStoragePrefix), a[:]...), s[:]...)
+			want = dst.SlotBlob(a, s)
+			read = func(sr database.StateReader, _ database.NodeReader) ([]byte, error) { return sr.Storage(a, s) }
+		default: // deepest account-trie node on the account's path: rewritten whenever the account changes
+			ops = []pdbOp{{pdbOpModify, ai, 0, val}}
+			var path []byte
+			for p, blob := range w.RefNodes(diskRoot).Account {
+				nib := make([]byte, 0, 64)
+				for _, b := range a {
+					nib = append(nib, b>>4, b&0x0f)
+				}
+				if len(p) > 0 && len(p) >= len(path) && bytes.HasPrefix(nib, []byte(p)) {
+					path, want = []byte(p), blob
+				}
+			}
+			if path == nil {
+				kind = "account" // single-leaf trie: fall back to the flat account
+				ops = []pdbOp{{pdbOpModify, ai, 0, val}}
+				diskKey = append(common.CopyBytes(rawdb.SnapshotAccountPrefix), a[:]...)
+				want = dst.AccountBlob(a)
+				read = func(sr database.StateReader, _ database.NodeReader) ([]byte, error) { return sr.(*reader).AccountRLP(a) }
+				break
+			}
+			diskKey = append(common.CopyBytes(rawdb.TrieNodeAccountPrefix), path...)
+			hash := common.Hash(reftrie.Keccak256(want))
+			read = func(_ database.StateReader, nr database.NodeReader) ([]byte, error) { return nr.Node(common.Hash{}, path, hash) }
+		}
+		sr, err := db.StateReader(diskRoot)
+		if err != nil {
+			fail("StateReader(disk root %x): %v", diskRoot, err)
+		}
+		nr, err := db.NodeReader(diskRoot)
+		if err != nil {
+			fail("NodeReader(disk root %x): %v", diskRoot, err)
+		}
+		oldDisk := db.tree.bottom()
+
+		// the reader, stalled inside its disk read
+		reached, release := stall.arm(diskKey)
+		var (
+			done      = make(chan struct{})
+			gotBlob   []byte
+			gotErr    error
+			stalled   bool
+			lockFree  bool
+			flattened bool
+		)
+		go func() {
+			defer close(done)
+			gotBlob, gotErr = read(sr, nr)
+		}()
+		select {
+		case <-reached:
+			stalled = true
+		case <-done: // answered from a buffer or cache: nothing to interleave with
+		}
+		// the mutation that flattens a layer changing the key (+ flush)
+		mutate := func() {
+			top := push(diskRoot, ops)
+			target := top
+			if rapid.Bool().Draw(rt, "viaCommit") {
+				if err := db.Commit(top, false); err != nil {
+					fail("Commit(%x): %v", top, err)
+				}
+				trace = append(trace, fmt.Sprintf("commit %x", top[:4]))
+			} else {
+				for i := 0; i < maxDiffLayers+1 && db.tree.bottom().rootHash() != target; i++ {
+					top = push(top, nil) // sequencer only: never touches the key again
+				}
+			}
+			flattened = db.tree.bottom().rootHash() == target
+			head = top
+		}
+		if stalled {
+			// Does the stalled reader still hold the disk layer's lock? Then no flattening can
+			// pass it (diskLayer.commit needs the write lock) and waiting would only burn time.
+			if oldDisk.lock.TryLock() {
+				oldDisk.lock.Unlock()
+				lockFree = true
+				trace = append(trace, fmt.Sprintf("reader stalled in Get(%x) WITHOUT the disk layer lock", diskKey))
+				mutate()
+			} else {
+				trace = append(trace, fmt.Sprintf("reader stalled in Get(%x) holding the disk layer lock", diskKey))
+			}
+			close(release)
+			<-done
+			trace = append(trace, "reader released")
+			if !lockFree {
+				mutate()
+			}
+		} else {
+			mutate()
+		}
+		if gotErr == nil && !c16Same(gotBlob, want) {
+			fail("%s read at disk root %x stalled across a flattening returned %x, model %x", kind, diskRoot, gotBlob, want)
+		}
+		// let the key leave the live/frozen buffers, then compare everything again
+		for i := 0; i < 2; i++ {
+			head = push(head, nil)
+		}
+		if err := db.tree.bottom().waitFlush(); err != nil {
+			fail("flush: %v", err)
+		}
+		checked := 0
+		for _, r := range w.Roots() {
+			if db.tree.get(r) == nil {
+				continue
+			}
+			checked++
+			if d := pdbVerifyReads(db, w, r); d != "" {
+				fail("after a %s disk read was stalled across the flattening of a layer changing it: %s", kind, d)
+			}
+		}
+		nt := stalled && flattened
+		c.NonTrivial(nt, strings.Join(trace, ";"))
+		c.Classf("stall kind=%s", kind)
+		switch {
+		case !stalled:
+			c.Class("stall: read served from memory")
+		case lockFree:
+			c.Class("stall: flattening overtook the stalled disk read")
+		default:
+			c.Class("stall: reader holds the layer lock, released before flattening")
+		}
+		if reopen {
+			c.Class("stall: after reopen")
+		}
+		c.Sample(nt, func() any {
+			return map[string]any{"kind": kind, "reopen": reopen, "stalled": stalled, "lock_free": lockFree, "flattened": flattened, "live_roots_checked": checked, "steps": trace}
 		})
 	})
 }
